@@ -87,4 +87,12 @@ def decode (input : Bytes) : Option Bytes :=
     | none => none
     | some (total, hlen) => elements (input.length + 1) (input.drop hlen) [] 0 total
 
+/-- `snap::raw::decompress_len(input)`: the uncompressed length declared by the preamble
+    (`Ok(0)` for an empty input, otherwise `Header::read(input)?.decompress_len`); `none` = `Err`
+    (`Error::Header`, `Error::TooBig`). It is what `decompress_vec` allocates up front. -/
+def declaredLen (input : Bytes) : Option Nat :=
+  match input with
+  | [] => some 0
+  | _ => (header input 0 0 0).map (·.1)
+
 end Sst.Snappy
